@@ -15,7 +15,7 @@ import json
 from .. import framework as fw
 from .. import imagegen as ig
 
-HEADER = ('From FJ Require Import Lib.Base Spec.MachineSpec Spec.DebugSpec Model.Debug.\n'
+HEADER = ('From FJ Require Import Lib.Base Model.Labels Spec.MachineSpec Spec.DebugSpec Model.Debug.\n'
           'Local Open Scope N_scope.\n')
 KBD = 6
 TIMEOUT = 7
@@ -170,6 +170,26 @@ def gen_cases(ctx):
             c.update(via='quickstart', kind='quickstart',
                      bp_contains=[rng.choice(['o', 'a', '---', 'l', 'zz', 'X'])] if labels and rng.random() < 0.6 else [])
         cases.append(c)
+    # (d) through flipjump.debug with SUBSTRING breakpoints on programs where several labels share an address (a label
+    #     directly followed by another one; a label right before a macro whose body starts with its own label): the
+    #     substring matches exactly one of the aliases - an earlier or a later one in the table - and the address is visited
+    alias_names = ['phase_two', 'retry_point', 'loop', 'main', 'f1:l3:m---x', 'f1:l3:m---:start:', 'a.b', 'end', 'init',
+                   'f2:l7:rep1:q(2)---body', 'X', 'done']
+    for p, plain in good[n_ex:] + good[:n_ex]:
+        visited = sorted(set(plain['last_ops'][1:]))
+        for _ in range(ctx.n(12, 120)):
+            names = rng.sample(alias_names, rng.choice([2, 3, 4, 5]))
+            spots = rng.sample(visited, min(len(visited), rng.choice([1, 1, 2])))
+            labels = {n: rng.choice(spots) for n in names}          # insertion order = definition order
+            if rng.random() < 0.3:
+                labels['elsewhere'] = rng.choice(image_targets(p))
+            target = rng.choice(names)
+            sub = target if rng.random() < 0.5 else target[rng.randrange(len(target)):][:rng.randrange(2, 9)]
+            c = dict(p)
+            c.update(bps=[], labels=labels, bp_labels=[n for n in names if rng.random() < 0.1], bp_contains=[sub],
+                     last_ops=4, via='quickstart', kind='alias-substring',
+                     script=rand_script(rng, p, labels, rng.choice([1, 2, 3, 4, 6])))
+            cases.append(c)
     # (c) the former F11 witness shape: breakpoint on an op whose jump word lies outside every segment
     for w in (8, 16, 32, 64):
         cases.append(f11_case(w))
@@ -193,9 +213,12 @@ def zlit(x):
 
 
 def all_bps(case, res=None):
-    if case.get('via') == 'quickstart' and res is not None:
-        return sorted(res['dbg'].get('resolved_bps', []))
+    """the breakpoint addresses as the SPECIFICATION gives them (C16_breakpoints): the addresses, the addresses of the exact
+    labels that exist, the addresses of every label containing one of the substrings - never taken from the code under test"""
     bps = set(case['bps'])
+    for name, a in (case.get('labels') or {}).items():
+        if any(sub in name for sub in case.get('bp_contains', [])):
+            bps.add(a)
     for n in case.get('bp_labels', []):
         bps.add(case['labels'][n])
     return sorted(bps)
@@ -212,7 +235,14 @@ def coq_case(case, res):
     outn, outb, outv = d['out']
     last = d.get('last_ops') or []
     events = '[' + ';'.join('[' + ';'.join(zlit(x) for x in e) + ']%Z' for e in d['events']) + ']'
-    return (f'mkdcase {ww} {fw.npairs(segs)} {fw.npairs(words)} {fw.nlist(inp)} {d["ops"] + 2} {fw.nlist(all_bps(case, res))} '
+    bps = fw.nlist(all_bps(case, res))
+    if case.get('via') == 'quickstart':
+        # through flipjump.debug: the addresses are resolved by the proven model of get_breakpoints (Model/Labels.v)
+        A = '[' + ';'.join(zlit(a) + '%Z' for a in case['bps']) + ']'
+        Ls = '[' + ';'.join(line_lit(x) for x in case.get('bp_labels', [])) + ']'
+        Sub = '[' + ';'.join(line_lit(x) for x in case.get('bp_contains', [])) + ']'
+        bps = f'(map (fun p => Z.to_N (fst p)) (Labels.get_breakpoints {A} {Ls} {Sub} {tbl}))'
+    return (f'mkdcase {ww} {fw.npairs(segs)} {fw.npairs(words)} {fw.nlist(inp)} {d["ops"] + 2} {bps} '
             f'{tbl} {script} {d["cause"]} {d["ops"]} {d.get("fault") or 0} {outn} {fw.nlist(outb)} {outv} '
             f'{case["last_ops"]} {fw.nlist(last)} {fw.npairs(d.get("mem", []))} {events} {d["consumed"]}')
 
@@ -383,7 +413,10 @@ def run(ctx):
         f'(a) ALL scripts up to length {ctx.n(3, 4)} over the {len(ALPHABET)}-command alphabet {ALPHABET} for 2 structured '
         'programs x one breakpoint set; (b) random scripts (length 0..20) over a pool of ~100 command spellings incl. reads by '
         'address/label/typed vector and malformed numbers, for generated images (imagegen: unaligned, self-modifying, IO, '
-        'segment-edge ops; chains) x random breakpoint sets (jump targets, op starts, unaligned, label breakpoints); '
+        'segment-edge ops; chains) x random breakpoint sets (jump targets, op starts, unaligned, label breakpoints), 12% through '
+        'the public flipjump.debug entry with a saved label file; (d) flipjump.debug with SUBSTRING breakpoints on structured programs '
+        'whose label table has several labels per visited address (the substring matches one alias, earlier or later defined); the '
+        'breakpoint addresses given to the model always come from the specification (C16 get_breakpoints model), never from the code; '
         '(c) the former F11 witness (breakpoint on an op whose jump word is outside every segment) per width. Each session: transcript+statistics+output+last-ops+memory vs Model/Debug.v in Coq, '
         'debugged vs undebugged real run, printed pauses vs DebugSpec.expected_pauses. distinct = distinct '
         '(image,input,breakpoints,labels,script); non-trivial = at least one pause happened')
